@@ -9,8 +9,10 @@ Init == l = 1
 Next == /\ l <= Len(Trace)
         /\ ev.n = Len(ev.mutations)
         /\ ev.k \in 1..(ev.n + 1)
-        /\ WellFormed(ev.mutations)
-        /\ Safe(ev.mutations, ev.k, ev)
+        \* compared with TRUE so that TLC evaluates the predicates as plain values: as conjuncts of the action their
+        \* existential quantifiers would be enumerated as alternatives (a product over every object of a long call)
+        /\ WellFormed(ev.mutations) = TRUE
+        /\ Safe(ev.mutations, ev.k, ev) = TRUE
         /\ l' = l + 1
 Spec == Init /\ [][Next]_l
 TraceAccepted == TLCGet("stats").diameter - 1 = Len(Trace)
